@@ -19,14 +19,17 @@ Definition prods_at (n size : nat) (sk : list poly) (a : list ccol) (k : nat) : 
   map (fun q => coef (svp (fst q) n size (snd q)) k) (combine sk a).
 
 Section Glwe.
-Variables wb b pb R : Z.
+Variables wb b pb : Z.
+Variable D : Z -> Prop.
 Variables n size psize rank : nat.
 Variable nk : Z.
-Hypothesis normalize_value_ok_small : normalize_value_ok (fun rb ab => normalize 64 rb ab 0) (2 ^ 62) R.
-Hypothesis normalize_value_ok_big : normalize_value_ok (bnorm wb) (2 ^ (wb - 2)) R.
+Hypothesis normalize_value_ok_small : normalize_value_ok_dom D (fun rb ab => normalize 64 rb ab 0) (2 ^ 62).
+Hypothesis normalize_value_ok_big : normalize_value_ok_dom D (bnorm wb) (2 ^ (wb - 2)).
 Hypothesis Hwb : 2 <= wb.
-Hypothesis Hb : 1 <= b <= R.
-Hypothesis Hpb : 1 <= pb <= R.
+Hypothesis Hb : D b.
+Hypothesis Hpb : D pb.
+Hypothesis Hb_pos : 1 <= b.
+Hypothesis Hpb_pos : 1 <= pb.
 Variables S E M : Z.
 Hypothesis HS : 0 <= S.
 
@@ -105,8 +108,8 @@ Proof.
   { unfold prods_at. rewrite map_length, combine_length. unfold a. rewrite glwe_mask_length. lia. }
   rewrite map_map in Hdk. fold (prods_at n size sk a k) in Hdk.
   pose proof (pow2_pos (b - 1) ltac:(lia)) as Hp.
-  destruct (sk_roundtrip_coeff wb b pb R size psize (target_limb nk b)
-              normalize_value_ok_small normalize_value_ok_big Hwb Hb Hpb Hl
+  destruct (sk_roundtrip_coeff wb b pb D size psize (target_limb nk b)
+              normalize_value_ok_small normalize_value_ok_big Hwb Hb Hpb Hb_pos Hl
               (S * 2 ^ (b - 1)) E M ltac:(nia)
               (prods_at n size sk a k) (map (fun t => coef t k) terms) (nthZ e k) (coef pt k) (coef body k) (coef d k)
               HX HT (He k Hk) (Hm k Hk) ltac:(rewrite LX; lia) ltac:(rewrite LX; lia) HBp Hbk Hdk)
@@ -138,7 +141,7 @@ Lemma sk_roundtrip_value :
       <= 2 ^ (P - zn psize * pb).
 Proof.
   intros wb b pb R n size psize rank nk S E M H1 H2 H3 H4 H5 H6 pt sk us e ct d A1 A2 A3 A4 A5 A6 A7 A8 A9 k Hk.
-  destruct (sk_roundtrip wb b pb R n size psize rank nk H1 H2 H3 H4 H5 S E M H6 pt sk us e ct d A1 A2 A3 A4 A5 A6 A7 A8 A9)
+  destruct (sk_roundtrip wb b pb (fun x => 1 <= x <= R) n size psize rank nk H1 H2 H3 H4 H5 (proj1 H4) S E M H6 pt sk us e ct d A1 A2 A3 A4 A5 A6 A7 A8 A9)
     as (_ & _ & V). destruct (V k Hk) as (_ & _ & L & W). split; [exact L|]. intros P Q1 Q2 Q3. apply (W P Q1 Q2 Q3).
 Qed.
 
@@ -165,7 +168,7 @@ Lemma sk_message_position :
               = lval P b size (coef pt k) + nthZ e k * wt P b (target_limb nk b) + q * 2 ^ P.
 Proof.
   intros wb b pb R n size psize rank nk S E M H1 H2 H3 H4 H5 H6 pt sk us e ct d A1 A2 A3 A4 A5 A6 A7 A8 A9.
-  destruct (sk_roundtrip wb b pb R n size psize rank nk H1 H2 H3 H4 H5 S E M H6 pt sk us e ct d A1 A2 A3 A4 A5 A6 A7 A8 A9)
+  destruct (sk_roundtrip wb b pb (fun x => 1 <= x <= R) n size psize rank nk H1 H2 H3 H4 H5 (proj1 H4) S E M H6 pt sk us e ct d A1 A2 A3 A4 A5 A6 A7 A8 A9)
     as (L & T & V). split; [exact L|]. split; [exact T|]. intros k Hk. destruct (V k Hk) as (L1 & R1 & _ & W).
   split; [exact L1|]. split; [exact R1|]. intros P Q1 Q2 Q3. apply (W P Q1 Q2 Q3).
 Qed.
@@ -191,6 +194,6 @@ Lemma sk_error_is_full :
               = lval P b size (coef pt k) + nthZ e k * 2 ^ (P - (zn (target_limb nk b) + 1) * b) + q * 2 ^ P.
 Proof.
   intros wb b pb R n size psize rank nk S E M H1 H2 H3 H4 H5 H6 pt sk us e ct d A1 A2 A3 A4 A5 A6 A7 A8 A9 k Hk P Q1 Q2 Q3.
-  destruct (sk_roundtrip wb b pb R n size psize rank nk H1 H2 H3 H4 H5 S E M H6 pt sk us e ct d A1 A2 A3 A4 A5 A6 A7 A8 A9)
+  destruct (sk_roundtrip wb b pb (fun x => 1 <= x <= R) n size psize rank nk H1 H2 H3 H4 H5 (proj1 H4) S E M H6 pt sk us e ct d A1 A2 A3 A4 A5 A6 A7 A8 A9)
     as (_ & _ & V). destruct (V k Hk) as (_ & _ & _ & W). destruct (W P Q1 Q2 Q3) as [X _]. exact X.
 Qed.
